@@ -40,6 +40,16 @@ def gen_merge_pair(rng):
         t = rng.choice(c1["a"])
         if set(t[0]) <= set(i2):
             c2["a"].append(rng.choice([t, gen.scaled(rng, t)]))
+    shared_vars = [v for v in i1 + o1 if v in i2 + o2]
+    if mode != "clash" and shared_vars and rng.random() < 0.15:
+        # two ALMOST parallel guarantees (directions 8e-6 apart) with clearly different bounds over a shared variable and a fresh,
+        # otherwise unconstrained shared input: each is the tighter one on part of the box, both must survive the merge
+        y = rng.choice(shared_vars)
+        for c in (c1, c2):
+            c["i"] = list(c["i"]) + ["p"]
+        kk = F(rng.choice([1, 2, -1]))
+        c1["g"].append(({y: kk, "p": -kk}, F(rng.randint(0, 2))))
+        c2["g"].append(({y: kk, "p": -kk * (1 - F(1, 2 ** 17))}, F(rng.randint(0, 2)) + F(rng.choice([1, 2, 8]), 1024)))
     if rng.random() < 0.15:
         # a term stated twice by the first operand (assumptions are never simplified), shared with the second operand, which
         # adds one more term: unions must still pick that one up
@@ -59,8 +69,11 @@ def gen_merge_pair(rng):
         lin = dict(t[0])
         v = rng.choice(vs_)
         # (the last factor: equal up to 4e-6 relative -- still a different constraint, by 4e-3 at the edge of the box)
-        lin[v] = lin[v] * rng.choice([F(2), F(-1), F(1, 2), F(3), 1 + F(1, 2 ** 18), 1 + F(1, 2 ** 18)])
-        return (lin, t[1])
+        fac = rng.choice([F(2), F(-1), F(1, 2), F(3), 1 + F(1, 2 ** 18), 1 + F(1, 2 ** 18), 1 - F(1, 2 ** 17), 1 - F(1, 2 ** 17)])
+        lin[v] = lin[v] * fac
+        # almost parallel but clearly different bounds: neither row makes the other redundant over the whole box
+        shift = F(rng.choice([1, 2, 16]), 1024) if fac == 1 - F(1, 2 ** 17) else F(0)
+        return (lin, t[1] + shift)
     if rng.random() < 0.35:
         for role, pool2 in (("g", i2 + o2), ("a", i2)):
             cands = [t for t in c1[role] if len(t[0]) >= 2 and set(t[0]) <= set(pool2)]
